@@ -32,6 +32,7 @@ import (
 	"google.golang.org/grpc"
 	"google.golang.org/grpc/metadata"
 	"google.golang.org/grpc/status"
+	"google.golang.org/protobuf/encoding/prototext"
 	"google.golang.org/protobuf/proto"
 	"google.golang.org/protobuf/types/known/structpb"
 	"google.golang.org/protobuf/types/known/wrapperspb"
@@ -311,6 +312,17 @@ func (o *obs) do(name string, f func(ctx context.Context) error) {
 		}
 		err = r.err
 	case <-time.After(slowBound + 10*time.Second):
+		// a stalled process makes both channels ready at once and select picks at random: prefer the result
+		select {
+		case r := <-done:
+			if r.pan != nil {
+				cancel()
+				panic(r.pan)
+			}
+			err = r.err
+			goto finished
+		default:
+		}
 		// uncancellable work: do not wait for it (finding F14 burnt minutes), and do not pile more on top
 		cancel()
 		o.n++
@@ -325,6 +337,7 @@ func (o *obs) do(name string, f func(ctx context.Context) error) {
 		}
 		return
 	}
+finished:
 	el := time.Since(start)
 	cancel()
 	runtime.ReadMemStats(&m1)
@@ -513,7 +526,15 @@ func kindList(r *hx.Rand, o *obs) {
 	hc := hostileContext(r)
 	ct := contextual(r)
 	o.do("ListObjects", func(ctx context.Context) error {
-		_, err := srv.ListObjects(ctx, &openfgav1.ListObjectsRequest{StoreId: storeID(r), AuthorizationModelId: modelID(r), Type: typ, Relation: rel, User: user, Context: hc, ContextualTuples: ct, Consistency: consistency(r)})
+		req := &openfgav1.ListObjectsRequest{StoreId: storeID(r), AuthorizationModelId: modelID(r), Type: typ, Relation: rel, User: user, Context: hc, ContextualTuples: ct, Consistency: consistency(r)}
+		if os.Getenv("C19_REQ") != "" {
+			txt := prototext.Format(req)
+			if len(txt) > 3000000 {
+				txt = txt[:3000000]
+			}
+			fmt.Fprintln(os.Stderr, "REQ ListObjects", txt)
+		}
+		_, err := srv.ListObjects(ctx, req)
 		return err
 	})
 	o.do("StreamedListObjects", func(ctx context.Context) error {
